@@ -3,7 +3,7 @@
    symmetric matrix the solve is a symmetric operator (solve_sym), the last hypothesis of the
    C02-A3 theorems for hierarchies that end in the direct solver. *)
 From Amgcl Require Import Scalar Vec Crs Kernels KernelsProofs MatOps MatOpsProofs Relax DenseSolve
-  Amg AmgExec AmgProofs AmgProofs2 AmgProofs3 AmgProofs4 AmgProofs5 AmgProofs6.
+  Amg AmgExec AmgProofs AmgProofs2 AmgProofs3 AmgProofs4 AmgProofs5 AmgProofs6 AmgProofs7 AmgProofs8.
 Local Open Scope S_scope.
 
 Section GJ.
@@ -280,6 +280,50 @@ Proof.
   rewrite (ip_Ax n A y2 g y1) by (intros i Hi; symmetry; apply (dense_solve_correct A g y2 Hsq Lg E2 i Hi)).
   rewrite (ip_Ax n A y1 f y2) by (intros i Hi; symmetry; apply (dense_solve_correct A f y1 Hsq Lf E1 i Hi)).
   apply (qA_adj Srt A A n n y2 y1 HcA HcA HsA).
+Qed.
+
+(* closed forms of C02-A3 with the exact coarse solve: no assumption on the solver is left
+   beyond "it does not break down" *)
+Lemma exact_solve_hyp (ls : list (@ldesc S)) :
+  (forall A, In (LSolve A) ls -> solvable A = true /\ sym_mat (nrows A) A) ->
+  forall A, In (LSolve A) ls -> solve_sym (nrows A) (mk_solve_exact A).
+Proof.
+  intros H A HA. destruct (H A HA) as [Hs Hm]. apply mk_solve_exact_sym; [apply Hm|exact Hs|exact Hm].
+Qed.
+
+Theorem built_apply_sym_exact (sadj_id : forall a : S, sadj a = a) kd ce dc ml sc ts (M : crs) k nc pc :
+  sym_kind kd -> wf M = true -> sym_mat (nrows M) M -> ts_sym (nrows M) ts ->
+  (forall A, In (LSolve A) (amg_init ce dc ml (coarse_op_of sc) ts M) ->
+             solvable A = true /\ sym_mat (nrows A) A) ->
+  let lvls := std_levels kd (amg_init ce dc ml (coarse_op_of sc) ts M) in
+  (pc = 0 \/ nosolve_top lvls) ->
+  forall scr1 scr2 f g x1 x2,
+  scratch_wf lvls scr1 -> scratch_wf lvls scr2 ->
+  length f = nrows M -> length g = nrows M -> length x1 = nrows M -> length x2 = nrows M ->
+  dot (fst (apply k k nc (Datatypes.S pc) lvls scr1 f x1)) g =
+  dot f (fst (apply k k nc (Datatypes.S pc) lvls scr2 g x2)).
+Proof.
+  intros Hk WM SM Hts Hsol.
+  apply (built_apply_sym_full Srt Seqb sadj_id kd ce dc ml sc ts M k nc pc Hk WM SM Hts).
+  apply exact_solve_hyp, Hsol.
+Qed.
+
+Theorem built_apply_sym_exact_gs (sadj_id : forall a : S, sadj a = a) ce dc ml sc ts (M : crs) k nc pc :
+  wf M = true -> sym_mat (nrows M) M -> ts_sym (nrows M) ts ->
+  (forall A, In (LSolve A) (amg_init ce dc ml (coarse_op_of sc) ts M) ->
+             solvable A = true /\ sym_mat (nrows A) A) ->
+  (forall l, In l (amg_init ce dc ml (coarse_op_of sc) ts M) -> gs_diag_ok (ld_A l)) ->
+  let lvls := std_levels RGS (amg_init ce dc ml (coarse_op_of sc) ts M) in
+  (pc = 0 \/ nosolve_top lvls) ->
+  forall scr1 scr2 f g x1 x2,
+  scratch_wf lvls scr1 -> scratch_wf lvls scr2 ->
+  length f = nrows M -> length g = nrows M -> length x1 = nrows M -> length x2 = nrows M ->
+  dot (fst (apply k k nc (Datatypes.S pc) lvls scr1 f x1)) g =
+  dot f (fst (apply k k nc (Datatypes.S pc) lvls scr2 g x2)).
+Proof.
+  intros WM SM Hts Hsol.
+  apply (built_apply_sym_full_gs Sft Seqb sadj_id ce dc ml sc ts M k nc pc WM SM Hts).
+  apply exact_solve_hyp, Hsol.
 Qed.
 
 End SolveCorrect.
